@@ -108,3 +108,27 @@ func TestFinding_LoadDeletesRulesMatchingNoStore(t *testing.T) {
 	vkit.Finding(t, kStoreCheck, err == nil && m2.GetRule("a", "r1") == nil && len(after) < len(before),
 		fmt.Sprintf("rule a/r1 {zone in [z2]} accepted and served; restarted with only the z1 store: Initialize %v, rule served: %v, rule keys in storage before %q, after %q", err, m2.GetRule("a", "r1") != nil, before, after))
 }
+
+// SetRuleGroup{"../raft", index 1}: the group record is written over the key "raft" (the cluster meta);
+// a restarted manager does not load the group; resetting the group deletes "raft"
+func TestFinding_GroupIDPathJoin(t *testing.T) {
+	base := kv.NewMemoryKV()
+	base.Save("raft", "sentinel: cluster meta")
+	m := placement.NewRuleManager(core.NewStorage(base), nil)
+	if err := m.Initialize(3, nil); err != nil {
+		t.Fatal(err)
+	}
+	err1 := m.SetRuleGroup(&placement.RuleGroup{ID: "../raft", Index: 1})
+	raft1, _ := base.Load("raft")
+	_, underPrefix := faultkv.Dump(base)["rule_group/../raft"]
+	m2 := placement.NewRuleManager(core.NewStorage(base), nil)
+	if err := m2.Initialize(3, nil); err != nil {
+		t.Fatal(err)
+	}
+	served, reloaded := m.GetRuleGroup("../raft") != nil, m2.GetRuleGroup("../raft") != nil
+	err2 := m.DeleteRuleGroup("../raft")
+	raft2, _ := base.Load("raft")
+	vkit.Finding(t, kGroupPath, err1 == nil && raft1 != "sentinel: cluster meta",
+		fmt.Sprintf("SetRuleGroup{../raft, index 1} returned %v; key raft now %q; record under rule_group/: %v; group served: %v, loaded by a restarted manager: %v; DeleteRuleGroup(../raft) returned %v, key raft now %q",
+			err1, raft1, underPrefix, served, reloaded, err2, raft2))
+}
